@@ -116,11 +116,12 @@ P['C09'] = dict(
 
 P['C10'] = dict(
     level_text='On the real mqtt_client with a symbolic configuration (client id, optional user name/password, optional Will with QoS/RETAIN/Will Delay, keep-alive, optional Session Expiry and Receive Maximum) and a request queued before any connection exists: up to 3 broker attempts over the list "a,b", each with every outcome (resolve ok with 1 or 2 endpoints / failing / timing out; per endpoint: success, TCP refused, CONNACK with any listed failure code, three kinds of malformed reply, silence until the 5 s timer; arbitrary reply bytes are the handshake job of C19). Monitors: first write of each connection is exactly one CONNECT that the reference decoder maps back to the configuration with Clean Start 0; nothing else is written and no queued request completes before a successful CONNACK; endpoints then brokers are tried in order; resolve and handshake are raced against a 5000 ms timer; a pause of 500..16500 ms occurs only at wrap-around. Kernels: exponential_backoff::generate for every 64-bit generator state and 0-6 earlier calls; broker-list parsing of generated well-formed lists.',
-    level_note='Bounds: 2 broker attempts (quick) / 3 (thorough), each with up to 2 endpoints; configuration content checked with symbolic values in 3 profiles on the first connection (job connect_content), gating/rotation explored with one concrete full configuration (job handshake). DNS, TCP and TLS/WebSocket handshakes are stubs; authenticator (AUTH exchange) not exercised.',
+    level_note='Bounds: 2 broker attempts (quick) / 3 (thorough), each with up to 2 endpoints; configuration content checked with symbolic values in 3 profiles on the first connection (job connect_content), gating/rotation explored with one concrete full configuration (job handshake). DNS, TCP and TLS/WebSocket handshakes are stubs. Job auth_exchange: a configured authenticator (symbolic data bytes): CONNECT carries method and initial data, the challenge of the broker is answered with exactly one AUTH, mismatching method or a failing authenticator abandons the attempt, queued traffic only after CONNACK.',
     assumptions=_pub_assume[:2] + ['timers fire in deadline order (virtual clock)'],
     jobs=[dict(name='connect_content', tu='harness/w_conn.cpp', entry='h_connect', engine='B', clock=True, defs={'VK_SYMCFG': 1, 'VK_ATTEMPTS': 1, 'VK_BYTES': 6}, reach=['connect-checked', 'connected'], samples=10),
           dict(name='handshake', tu='harness/w_conn.cpp', entry='h_connect', engine='B', clock=True, defs={'VK_SYMCFG': 0}, defs_quick={'VK_ATTEMPTS': 2, 'VK_BYTES': 6}, defs_thorough={'VK_ATTEMPTS': 3, 'VK_BYTES': 8},
                reach=['connect-checked', 'connect-repeated', 'paused', 'resolve-failed', 'resolve-timeout', 'refused', 'connack-refused', 'malformed-reply', 'silent-broker', 'connected', 'reconnect-after-success', 'connack-with-overrides'], samples=10),
+          dict(name='auth_exchange', tu='harness/w_conn.cpp', entry='h_auth_handshake', engine='B', clock=True, defs={'VK_SYMCFG': 0, 'VK_ATTEMPTS': 2, 'VK_BYTES': 6}, reach=['authenticated', 'auth-abandoned', 'connack-without-challenge'], samples=8),
           dict(name='backoff', tu='harness/w_conn.cpp', entry='h_backoff', engine='B', clock=True, defs={'VK_SYMCFG': 0, 'VK_ATTEMPTS': 2, 'VK_BYTES': 6}, reach=['saturated'], samples=7),
           dict(name='broker_list', tu='harness/w_conn.cpp', entry='h_brokers', engine='B', clock=True, defs={'VK_SYMCFG': 0, 'VK_ATTEMPTS': 2, 'VK_BYTES': 6}, reach=['two-hosts', 'one-host'], samples=8)])
 
